@@ -50,19 +50,19 @@ T = {
     "C19": (True, "fault_enumeration", "fault injection: sys.monitoring LINE failpoints (os._exit at the j-th execution of every line of _load_or_run / save function) and RLIMIT_FSIZE+SIGXFSZ byte kills at every file size, in forked children; rerun and third run compared with the cache-free oracle and a call log",
             "Every executable line x key index and (thorough) every byte size of the small payload are enumerated, sequential and inside pebble workers, for tuple, dict and real Simulation payloads; after each crash the directory is listed, a rerun must complete with correct results and a third run must not recompute.",
             "Crash instants are Python line boundaries and file byte sizes; page-cache loss not modelled. Oracle = cache-free run."),
-    "C06": (True, "translation_validation", "differential execution: generated Python functions (real module files) translated by fn_to_sympy, evaluated by exact simultaneous substitution at lattice + random points against the executed function; instrumented twin (AST transform) filters points where rounding decides a comparison",
+    "C06": (True, "exploration", "differential execution: generated Python functions (real module files) translated by fn_to_sympy, evaluated by exact simultaneous substitution at lattice + random points against the executed function; instrumented twin (AST transform) filters points where rounding decides a comparison",
             "Thousands of generated function bodies in and just outside the supported subset x argument renamings (fresh, permuted, shifted) x branch-boundary lattices; None / an exception is accepted as refusal, any returned expression must equal the function wherever it is defined.",
             "Trusted: CPython executing the function; sympy xreplace/evalf for evaluation. Points where two compared operands are within 1e-9 and not small dyadic rationals are skipped (floating-point artefact, not a defined branch)."),
-    "C07": (True, "translation_validation", "differential execution of the emitted text with the target's real toolchain (CPython exec, node 20 after type stripping, rustc) and a Julia-subset evaluator, against model(t, x); repair-twin attribution for the open Julia finding",
+    "C07": (True, "exploration", "differential execution of the emitted text with the target's real toolchain (CPython exec, node 20 after type stripping, rustc) and a Julia-subset evaluator, against model(t, x); repair-twin attribution for the open Julia finding",
             "The four generators run on the same model instance in random order (side effects between generators observed), with and without free parameters; every emission is executed at 4 states; untranslatable functions must make generation raise.",
             "TypeScript types are not checked (no tsc); Julia acceptance by a real Julia cannot be decided here (subset evaluator). Parameters feeding an initial assignment are not made free."),
-    "C11": (True, "translation_validation", "differential execution: exec(generate_mxlpy_code(M))['create_model']() compared with M and the reference evaluator at random states",
+    "C11": (True, "exploration", "differential execution: exec(generate_mxlpy_code(M))['create_model']() compared with M and the reference evaluator at random states",
             "C07-style models plus hostile function assignments (shared / permuted / repeated arguments, same-named functions from two modules, prefix collisions, math.* bodies, initial assignments, computed coefficients); names and kinds, initial values, parameter values, derived values, fluxes and derivatives compared.",
             "Trusted: the original model (C01) and mon/refmodel; 15-significant-digit printing -> tolerance 1e-9."),
     "C12": (True, "exploration", "differential monitor: symbolic equations / Jacobian evaluated by exact substitution vs numeric model and central differences at random states and parameter settings; use_jacobian on/off trajectories for Radau/BDF/LSODA with a counter on the Jacobian callable",
             "Translatable and shipped-library models in random declaration order, two parameter settings each; simulations (one and two segments with a parameter change) compared with and without Jacobian and with the closed form; unconvertible functions must raise.",
             "Trusted: numeric model (C01), expm closed form; points next to a conditional's kink are skipped for the finite-difference comparison."),
-    "C08": (True, "translation_validation", "round-trip monitor: sbml.write then sbml.read on generated models (expression grammar in real module files, private HOME per worker), re-read model compared with the original at random states; plain-name ablation twin for the open finding",
+    "C08": (True, "exploration", "round-trip monitor: sbml.write then sbml.read on generated models (expression grammar in real module files, private HOME per worker), re-read model compared with the original at random states; plain-name ablation twin for the open finding",
             "Outcomes tallied per feature: export raised (NotImplementedError/ValueError = controlled refusal, accepted), export crashed (violation), read failed (violation), equal, different (violation). Every original name must exist with the same initial value, parameter value, derived value, flux and derivative.",
             "Trusted: the original model evaluated directly. Extra components in the re-read model are allowed. pysbml is a third-party dependency of the import path."),
     "C20": (True, "exploration", "law monitor over generated (data, prediction) pairs per shipped loss; residual log through the public residual_fn= wrapper, recomputed from independent simulations; before/after snapshot of the caller's model",
